@@ -156,7 +156,8 @@ def _g6_guard_in_callers(prog, f, oa, ob):
 
 
 # =================================================================================================
-N3_FILES = re.compile(r"lib/corr\.cpp$|include/dsplib/tuner\.h$|lib/hilbert\.cpp$|lib/window\.cpp$|lib/fir\.cpp$")
+N3_FILES = re.compile(r"lib/corr\.cpp$|include/dsplib/tuner\.h$|lib/hilbert\.cpp$|lib/window\.cpp$|lib/fir\.cpp$|lib/snr\.cpp$|lib/awgn\.cpp$")
+N3_C19 = re.compile(r"lib/window\.cpp$|lib/snr\.cpp$|lib/awgn\.cpp$")
 N3_C11 = re.compile(r"lib/window\.cpp$|lib/fir\.cpp$")
 N3_C14 = re.compile(r"include/dsplib/tuner\.h$|lib/hilbert\.cpp$")
 
@@ -178,7 +179,10 @@ def rule_N3(prog, fixture=False):
             key = "N3:%s:mul%d" % (fkey(f), idx)
             where = "%s:%d" % (prog.rel(f.file), x.line)
             what = "%s in %s" % (x.text(), f.short)
-            n3p = {"props": ["C14"] if N3_C14.search(prog.rel(f.file)) else (["C11"] if N3_C11.search(prog.rel(f.file)) else ["C16"])}
+            rel_ = prog.rel(f.file)
+            n3p = {"props": ["C14"] if N3_C14.search(rel_) else (["C11"] if N3_C11.search(rel_) else ([] if N3_C19.search(rel_) else ["C16"]))}
+            if N3_C19.search(rel_):
+                n3p["props"] = n3p["props"] + ["C19"]      # thd / sinad / snr weigh the record with window::kaiser
             if _is_constant(x.c[0]) or _is_constant(x.c[1]) or (x.get("w") or 0) > 32:
                 res.add(key, DISCHARGED, where, what, "constant factor or 64-bit arithmetic", func=f.name, extra=n3p)
                 continue
